@@ -749,7 +749,7 @@ fn parse_step(tok: &str) -> Option<Step> {
 	})
 }
 
-/// How the server is assembled (script token `E<server|tower>`).
+/// How the server is assembled (script token `E<server|tower|towermw>[+r]`).
 #[derive(Debug, Clone, Copy, PartialEq)]
 enum Entry {
 	Server,
